@@ -117,3 +117,16 @@ chk('C19', 'model_checking',
     'core; every edge in exactly one part), connected components (partition of nodes and edges) and symmetric tree layouts (no two nodes on one point) for those and seeded random graphs up to 60 nodes.',
     'peel() only on connected graphs (the statement). Planarisation clause: see Planar stage / not_applicable note in DESIGN.',
     'TLA+ confluence model of peeling; TLC-enumerated graphs replayed; record validation', '4/C19')
+
+chk('C07', 'model_checking',
+    'Compound.tla gives each compound constraint type its documented meaning over rectangle centres on the 1e-4 lattice (separation, alignment with offsets, boundary as "a separating line exists", '
+    'multi-separation and distribution over alignment guides, fixed-relative offsets) and judges every recorded layout run: every constraint not reported through the unsatisfiable-constraint lists holds, '
+    'sizes unchanged, all coordinates finite. Runs: seeded graphs (edgeless, disconnected, coincident nodes), satisfiable and contradictory mixes in both dimensions, overlap avoidance, neighbour stress, '
+    'makeFeasible on/off, both layout classes; a run that does not terminate is a violation.',
+    'fixPos() and page boundaries are weighted preferences, not asserted. F31 (makeFeasible does not terminate) is a known finding.',
+    'TLA+ declarative constraint semantics; record validation of layout runs', '4/C07')
+chk('C08', 'model_checking',
+    'Same specification module: with overlap avoidance on, makeFeasible()+run() and nothing reported, no non-exempt pair of node rectangles overlaps by more than 1e-3 in both axes, member bounding boxes of '
+    'sibling clusters are disjoint and no foreign node lies inside a cluster\'s member box. Runs biased to heavy overlap, coincident and nested rectangles, exemption groups, two rectangular clusters with padding/margin.',
+    'Rectangular clusters, one level. Runs with reported constraints are counted, not judged (the statement\'s antecedent).',
+    'TLA+ declarative non-overlap/containment semantics; record validation of layout runs', '4/C08')
